@@ -48,7 +48,7 @@ def tlc(module, cfg, workdir, workers=1, env_extra=None, timeout=3600, trace_mod
     cmd = ["timeout", str(timeout), "tlc", "-workers", str(workers), "-metadir", md, "-cleanup",
            "-noGenerateSpecTE", "-config", cfg, os.path.join(SPEC, module + ".tla")]
     if extra:
-        cmd[2:2] = extra
+        cmd[3:3] = extra
     with open(out, "w") as f:
         p = subprocess.run(cmd, stdout=f, stderr=subprocess.STDOUT, env=env, cwd=workdir)
     shutil.rmtree(md, ignore_errors=True)
@@ -73,10 +73,20 @@ def tlc_stats(out):
     return gen, dist, err
 
 
-def model_check(module, cfgname, workdir, workers, timeout=3600):
+def model_check(module, cfgname, workdir, workers, timeout=3600, simulate=None):
     cfg = os.path.join(CFG, cfgname)
     t0 = time.time()
-    rc, out = tlc(module, cfg, workdir, workers=workers, timeout=timeout)
+    extra = None
+    if simulate:
+        extra = ["-simulate", "num=%d" % simulate["num"], "-depth", str(simulate["depth"]), "-seed", str(simulate["seed"])]
+    rc, out = tlc(module, cfg, workdir, workers=workers, timeout=timeout, extra=extra)
+    if simulate:
+        n = int(subprocess.run("grep -c '^<<\"EDGE\"' %s" % out, shell=True, capture_output=True, text=True).stdout.strip() or 0)
+        txt = subprocess.run("grep -v '^<<\"EDGE\"' %s | tail -30" % out, shell=True, capture_output=True, text=True).stdout
+        if rc == 124 or "Error:" in txt or n == 0:
+            raise ToolError("TLC simulation failed for %s:\n%s" % (cfgname, txt))
+        return {"cfg": cfgname, "module": module, "states": n, "transitions": n, "wall_s": round(time.time() - t0, 1),
+                "out": out, "walks": simulate["num"]}
     gen, dist, err = tlc_stats(out)
     if rc == 124:
         raise ToolError("TLC timed out on %s (%s)" % (cfgname, out))
@@ -259,6 +269,7 @@ def run_check(prop_id, tier, seed):
 
     # ---- phase 1: TLC on every config of the tier (model level)
     jobs = []
+    walk_specs = {}
     cfg_flavours = {}
     for prim in prop["prims"]:
         info = PRIMS[prim]
@@ -269,13 +280,21 @@ def run_check(prop_id, tier, seed):
             jobs.append((prim, c, True))
         for c in info["model_cfgs"][tier]:
             jobs.append((prim, c, False))
+        for w in info.get("walk_cfgs", {}).get(tier, []):
+            walk_specs[w["cfg"]] = w
+            if "flavours" in w:
+                cfg_flavours[w["cfg"]] = w["flavours"]
+            jobs.append((prim, w["cfg"], True))
     results = {}
     # tour configs need a single worker each (one line per edge); run several TLC processes side by side
     def run_job(j):
         prim, c, tour = j
         wd = os.path.join(work, "tlc-" + c.replace(".cfg", ""))
         w = 1 if tour else max(2, min(8, ncpu // 2))
-        return j, model_check(PRIMS[prim]["module"], c, wd, w)
+        sim = None
+        if c in walk_specs:
+            sim = {"num": walk_specs[c]["num"], "depth": walk_specs[c]["depth"], "seed": seed}
+        return j, model_check(PRIMS[prim]["module"], c, wd, w, simulate=sim)
     tour_jobs = [j for j in jobs if j[2]]
     deep_jobs = [j for j in jobs if not j[2]]
     with cf.ThreadPoolExecutor(max_workers=max(1, ncpu // 2)) as ex:
@@ -304,13 +323,18 @@ def run_check(prop_id, tier, seed):
         info = PRIMS[prim]
         wd = os.path.dirname(r["out"])
         tours = os.path.join(wd, "tours.ndjson")
-        p = subprocess.run([sys.executable, os.path.join(ROOT, "tools", "tourgen.py"), r["out"], tours, str(info.get("tour_len", 200))],
-                           capture_output=True, text=True)
+        is_walk = c in walk_specs
+        gen = [sys.executable, os.path.join(ROOT, "tools", "walkgen.py"), r["out"], tours] if is_walk else \
+              [sys.executable, os.path.join(ROOT, "tools", "tourgen.py"), r["out"], tours, str(info.get("tour_len", 200))]
+        p = subprocess.run(gen, capture_output=True, text=True)
         if p.returncode != 0:
             raise ToolError("tourgen failed for %s: %s" % (c, p.stderr[-2000:]))
         hdr = json.loads(p.stdout.strip().splitlines()[-1])
         os.remove(r["out"])  # edge dump no longer needed
-        ev["edges"] += hdr["edges"]
+        if is_walk:
+            ev["walk_steps"] = ev.get("walk_steps", 0) + hdr["steps"]
+        else:
+            ev["edges"] += hdr["edges"]
         cfgrec = next(x for x in ev["configs"] if x["cfg"] == c)
         cfgrec.update({"edges": hdr["edges"], "paths": hdr["paths"], "steps": hdr["steps"], "consts": hdr["consts"]})
         all_clean = True
@@ -360,7 +384,7 @@ def run_check(prop_id, tier, seed):
                                             "first": {k: s["drift"][0][k] for k in ("path", "step", "why")}})
             for smp in s["samples"]:
                 add_trace_file(prim, smp["trace"], "conforming %s %s path %s" % (c, fl, smp["path"]))
-        if all_clean:
+        if all_clean and not is_walk:
             ev["edges_covered"] += hdr["edges_covered"]
         # action coverage from the tour file itself
         with open(tours) as f:
